@@ -23,7 +23,8 @@ WORDS = [u"alpha", u"Bravo", u"CHARLIE", u"running", u"runs", u"ran", u"librarie
          u"κόσμος", u"東京", u"日本語", u"مرحبا", u"שלום", u"3.14", u"42", u"2010-01-02", u"1,000", u"wi-fi",
          u"PowerShot", u"SD500", u"snake_case", u"don't", u"O'Neil", u"http://example.com/a?b=1&c=2",
          u"user@example.org", u"x" * 60, u"ab", u"abc", u"abcd", u"C++", u"AT&T", u"e.g.", u"U.S.A.", u"\U0001F600",
-         u"ﬁne", u"İstanbul", u"ǅ", u"ß", u"fooBar", u"foo-bar-baz", u"R2D2", u"quick", u"brown", u"fox", u"jumped"]
+         u"ﬁne", u"İstanbul", u"ǅ", u"ß", u"fooBar", u"foo-bar-baz", u"R2D2", u"quick", u"brown", u"fox", u"jumped",
+         u"a<b", u"x&lt;y", u"<i>tag</i>", u"Q&A", u"5>3"]
 SEPS = [u" ", u" ", u" ", u", ", u". ", u"\n", u" - ", u"; ", u"\t", u" / ", u"! ", u" (", u") "]
 
 
@@ -137,6 +138,12 @@ def _build_case(run, rng, name, field, flags, ndocs, schema, storage):
         w = ix.writer()
         for k in part:
             texts[k] = rand_text(rng, (1, 2) if name in ("id",) else (1, 9))
+            if name == "space+strip+subst" and rng.random() < 0.6:   # a token the filter empties completely
+                texts[k] += rng.choice([u" - x", u" -- -", u" a - b"])
+            if name == "keyword-commas" and rng.random() < 0.6:      # an empty item between commas
+                texts[k] += rng.choice([u", ,zz", u",,", u", "])
+            if name in ("regex-gaps", "keyword", "space+strip+subst") and rng.random() < 0.5:   # markup-like tokens
+                texts[k] += rng.choice([u" a<b", u" x&lt;y", u" <i>tag</i> Q&A"])
             if name == "stemming-ignore" and rng.random() < 0.6:     # words on the analyzer's ignore list
                 texts[k] += rng.choice([u" running", u" libraries jumped", u", Running"])
             w.add_document(key=k, f=texts[k])
@@ -297,6 +304,24 @@ def _build_case(run, rng, name, field, flags, ndocs, schema, storage):
                              "msg": str(ex)[:200]}
                     qs.append({"q": null, "text": text, "obs": [o]})
                     run.count(1)
+                # the HTML formatter: with its own tags removed and entities unescaped, the excerpt is the text
+                try:
+                    import html as _html
+                    import re as _re
+                    r = s.search(hq, limit=None, terms=True)
+                    r.fragmenter = highlight.WholeFragmenter()
+                    r.formatter = highlight.HtmlFormatter(tagname="strong", between=MB)
+                    hit = [h for h in r if h.docnum == dn][0]
+                    out = hit.highlights("f", top=3)
+                    frags = [[ord(c) for c in _html.unescape(_re.sub(r'</?strong[^>]*>', u"", piece))]
+                             for piece in (out.split(MB) if out else [])]
+                    o = {"kind": "highlight", "path": "highlights(whole, HtmlFormatter)", "text": [ord(c) for c in text],
+                         "frags": frags, "marks": [], "qterms": [tid(t) for t in pick], "occ": [],
+                         "spans_checked": False, "raw": out}
+                except Exception as ex:
+                    o = {"kind": "error", "path": "highlights(html)", "err": type(ex).__name__, "msg": str(ex)[:200]}
+                qs.append({"q": null, "text": text, "obs": [o]})
+                run.count(1)
     return {"idx": idx, "qs": qs, "analyzer": name}
 
 
